@@ -276,7 +276,14 @@ def frac_eval(e, env):
         if l is None or r is None:
             return None
         if b[0] == "/":
-            return l / r if r != 0 else None
+            if r == 0:
+                return None
+            ty = (e.get("ty") or "").replace("const ", "")
+            integral = ty in ("unsigned long", "long", "unsigned int", "int", "unsigned", "unsigned long long", "long long", "size_t", "short", "unsigned short")
+            if integral:
+                q = l / r
+                return Fraction(int(q))        # C++ integer division truncates
+            return l / r
         return {"+": l + r, "-": l - r, "*": l * r}[b[0]]
     return None
 
